@@ -50,17 +50,20 @@ def gen_case(rng, tier):
             else:
                 calls.append("%s%d:%s" % (kind, k, script(rng, ops)))
     elif style < 0.8:
-        # B: every kind of call, handlers only await
-        getters = [script(rng, AWAITS, 2) for _ in range(4)]
+        # B: every kind of call; with Introspect traffic the handlers only await, without it method and property
+        #    handlers also register / remove (safe since /repo d9501501)
+        with_x = rng.random() < 0.4
+        ops = AWAITS if with_x else AWAITS + MUTS
+        getters = [script(rng, ops, 2) for _ in range(4)]
         for _ in range(n):
             k = rng.choice([0, 1, 2, 3])
-            kind = rng.choice("mmffgGstxn" if rng.random() < 0.5 else "mmmfff")
+            kind = rng.choice(("mmffgGstxn" if with_x else "mmffgGstgn") if rng.random() < 0.5 else "mmmfff")
             if kind == "n":
                 calls.append("n")
             elif kind in "gGx":
                 calls.append("%s%d" % (kind, k))
             else:
-                calls.append("%s%d:%s" % (kind, k, script(rng, AWAITS)))
+                calls.append("%s%d:%s" % (kind, k, script(rng, ops)))
     else:
         # C: handlers of the spawning interfaces look the inline interfaces up (and register / remove);
         #    handlers of the inline interfaces only await
@@ -128,11 +131,11 @@ LEVEL = "proof"
 LEVEL_TEXT = ("Theorems in coq/theories/Properties/C29.v over a small-step model of the dispatch task (receive, root read lock for the "
               "lookup, then run dispatch_call_to_iface inline or spawn it), of dispatch_call_to_iface (interface read lock, or read-drop-"
               "write for &mut methods, reply sent under the lock), of ObjectServer::at/remove/interface and of the Properties / "
-              "Introspectable paths, under the RwLock semantics read from async-lock (write-preferring), with handlers as arbitrary finite "
+              "Introspectable paths (Properties as repaired by /repo d9501501), under the RwLock semantics read from async-lock (write-preferring), with handlers as arbitrary finite "
               "scripts, any number of calls and tasks and an arbitrary scheduler: in EVERY reachable state the events of the inline calls "
               "are a prefix of their sequential execution in arrival order (C29_order, C29_order_complete); no reply is sent twice and, in "
               "the class of bursts that respect one lock order (which contains every burst of method handlers that await / register / "
-              "remove / emit, C29_methods_safe), some step is enabled until every call has exactly one reply (C29_all_reply), and every run "
+              "remove / emit, C29_methods_safe — and since d9501501 of property handlers too), some step is enabled until every call has exactly one reply (C29_all_reply), and every run "
               "is finite with an explicit bound (C29_terminates). The model is "
               "tied to the code by replaying the handler event log of real bursts through the model (every verdict is re-run through "
               "Model.runs, C29_explains_ok_sound) and the order / reply oracle is evaluated on the implementation's own log.")
